@@ -120,7 +120,12 @@ func (p *objectWalker) walkAllRefs() error {
 		// An entry whose blob is not there (intent-to-add, or an index that
 		// is ahead of a partial clone) has nothing to protect or repack.
 		if err := p.Storer.HasEncodedObject(e.Hash); err != nil {
-			continue
+			if errors.Is(err, plumbing.ErrObjectNotFound) {
+				continue
+			}
+			// not knowing is not the same as not there: the caller is about
+			// to delete what the walk has not seen
+			return fmt.Errorf("checking index entry %s (%s): %w", e.Name, e.Hash, err)
 		}
 		p.add(e.Hash)
 	}
